@@ -156,7 +156,7 @@ def _smallprimes(n):
 class NF(object):
     """One normalisation context: atom registry + side conditions."""
 
-    def __init__(self, max_terms=20000):
+    def __init__(self, max_terms=120000):
         self.atoms = {}      # key -> defining term (for evaluation / SMT)
         self.bpoly = {}      # 'b:' key -> primitive poly P
         self.side = []       # list of (kind, term)  kind in 'pos' 'nonzero'
